@@ -486,8 +486,27 @@ def sim_recount(repo, seed=0, n=60):
                           waiting_seconds_mean=rng.choice([0.2, 1.0, 5.0]), num_pipelines=rng.choice([1, 3]), num_operators=rng.choice([1, 3, 6]))
             full = sim.parse_args_with_defaults(dict(params))
             max_ticks = int(full["duration"] * tps)
-            if rng.random() < 0.5:
+            kind = rng.random()
+            if kind < 0.4:
                 inner = WorkloadGenerator(**full)
+            elif kind < 0.6:
+                # forks and diamonds with identical sibling operators: several containers of one pipeline end in the same tick
+                by_tick, r2 = {}, random.Random(rng.randint(0, 10**6))
+                for j in range(r2.randint(1, 4)):
+                    p = Pipeline(f"tw{case}_{j}", r2.choice(list(Priority)))
+                    seg = lambda: Segment(baseline_cpu_seconds=r2.choice([0.5, 1, 2]), cpu_scaling="const", memory_gb=1, storage_read_gb=0)
+                    root = p.new_operator()
+                    root.add_segment(seg())
+                    cpu_s = r2.choice([0.5, 1, 3])
+                    kids = []
+                    for _k in range(r2.choice([2, 3])):
+                        o = p.new_operator([root])
+                        o.add_segment(Segment(baseline_cpu_seconds=cpu_s, cpu_scaling="const", memory_gb=1, storage_read_gb=0))
+                        kids.append(o)
+                    if r2.random() < 0.4:
+                        p.new_operator(kids).add_segment(seg())
+                    by_tick.setdefault(r2.choice([0, 1, 2]), []).append(p)
+                inner = ListWorkload(by_tick)
             else:
                 by_tick, r2 = {}, random.Random(rng.randint(0, 10**6))
                 for j in range(r2.randint(1, 6)):
@@ -1058,9 +1077,11 @@ def rest_bridge(repo, seed=0, n=12):
                                     chosen = list(chosen) + p2["operators"]
                                     used.add(p2["pipeline_id"])
                                     break
-                        c_, r_ = max(1, int(cpu) // prng.choice([1, 2, 4])), ram / prng.choice([1, 2, 4])
-                        if ram >= 60:
-                            r_ = max(60, r_)          # enough for the generator's prototypes most of the time
+                        c_, r_ = max(1, int(cpu) // prng.choice([1, 2, 4])), ram / prng.choice([1, 2, 3, 4, 7])
+                        if ram >= 61:
+                            r_ = max(60.5, r_)        # enough for the generator's prototypes most of the time
+                        if c_ + 0.5 <= cpu and prng.random() < 0.4:
+                            c_ = c_ + 0.5             # fractional CPU and RAM must arrive exactly as given
                         asg.append({"operator_ids": [o["id"] for o in chosen], "cpu": c_, "ram_gb": r_,
                                     "priority": p["priority"], "pool_id": pool["pool_id"], "is_resume": False, "force_run": False})
                         cpu -= c_; ram -= r_
@@ -1259,3 +1280,44 @@ def rest_bridge(repo, seed=0, n=12):
 
 
 CHILDREN.update({"rest_bridge": rest_bridge})
+
+
+# ------------------------------------------------------------------------------------------------
+def get_pool_exhaustive(repo, max_pools=3):
+    """C12/C08 bounded: the real get_pool_with_max_avail_ram on every snapshot of <= 3 pools with free CPU in {0, 1, 4}
+    and free RAM in {0, 0.5, 8} (incl. equal values): -1 exactly when no pool has free CPU and free RAM, otherwise a pool
+    with free CPU and free RAM that has the most free RAM among the pools with free CPU."""
+    import itertools, types
+    sys.path.insert(0, repo)
+    logging.disable(logging.CRITICAL)
+    from eudoxia.scheduler import priority
+    problems, n = [], 0
+    for k in range(0, max_pools + 1):
+        for combo in itertools.product(itertools.product([0, 1, 4], [0, 0.5, 8]), repeat=k):
+            n += 1
+            stats = {i: {"avail_cpu": c, "avail_ram": r, "total_cpu": 8, "total_ram": 16} for i, (c, r) in enumerate(combo)}
+            s = types.SimpleNamespace(executor=types.SimpleNamespace(num_pools=k))
+            try:
+                got = priority.get_pool_with_max_avail_ram(s, stats)
+            except Exception as e:
+                problems.append(("raised", list(combo), repr(e)[:100])); continue
+            usable = [i for i, (c, r) in enumerate(combo) if c > 0 and r > 0]
+            if not usable:
+                if got != -1:
+                    problems.append(("pool-chosen-although-none-has-free-cpu-and-ram", list(combo), got))
+            elif got not in usable:
+                problems.append(("chosen-pool-without-free-cpu-or-ram" if got != -1 else "no-pool-although-one-is-usable", list(combo), got))
+            elif any(combo[i][1] > combo[got][1] for i in range(k) if combo[i][0] > 0):
+                problems.append(("not-the-most-free-ram", list(combo), got))
+    kinds = {}
+    for pb in problems:
+        kinds[pb[0]] = kinds.get(pb[0], 0) + 1
+    first = {}
+    for pb in problems:
+        first.setdefault(pb[0], pb)
+    return {"name": "bounded:get-pool-exhaustive", "ok": not problems, "bounded": f"all snapshots of <= {max_pools} pools over 3 x 3 figures", "cases": n,
+            "kinds": kinds, "finding_kinds": sorted(kinds), "witness": [list(map(str, p)) for p in first.values()][:3],
+            "detail": "as specified" if not problems else str(kinds)}
+
+
+CHILDREN.update({"get_pool_exhaustive": get_pool_exhaustive})
